@@ -285,13 +285,20 @@ def pick_hash(i, m, seed):
     x ^= x >> 15; x = (x * 2246822519) & 0xffffffff; x ^= x >> 13
     return x % m == 0
 
-def seed():
+def seed_raw():
     try: return int(os.environ.get("VERIF_SEED", "1"))
     except ValueError: return 1
 
+def seed():
+    """the seed handed to generators, drivers and selections: VERIF_SEED folded into 1..1999 (TLC's integers are 32-bit and the TLA+
+    generators multiply the seed by constants around 10^6; small seeds are used as they are, so VERIF_SEED=1,2,3 mean what they say)"""
+    s = seed_raw()
+    if 0 < s < 2000: return s
+    return 1 + (abs(s) * 2654435761 % 4294967296) % 1999
+
 def write_evidence(prop, tier, level, coverage, wall, violations, assumptions=()):
     os.makedirs(os.path.join(OUTROOT, "evidence"), exist_ok=True)
-    ev = {"property_id": prop, "tier": tier, "seed": seed(), "level": level, "coverage": coverage,
+    ev = {"property_id": prop, "tier": tier, "seed": seed_raw(), "seed_used": seed(), "level": level, "coverage": coverage,
           "assumptions": list(assumptions), "wall_s": round(wall, 2), "violations": violations}
     tmp = os.path.join(OUTROOT, "evidence", prop + ".json.tmp")
     json.dump(ev, open(tmp, "w"), indent=1)
